@@ -25,7 +25,7 @@ import numpy as np
 # monotone renderings of model steps 1..5 (k -> real step); affine ones keep keep_every_n_steps arithmetic exact
 AFFINE = [
     lambda k: k, lambda k: 10 * k, lambda k: k - 10, lambda k: 0.5 * k, lambda k: float(k), lambda k: 2 * k + 96,
-    lambda k: -1.0 * (6 - k),
+    lambda k: -1.0 * (6 - k), lambda k: k - 1, lambda k: 2.0 * (k - 1), lambda k: k - 3,      # renderings that contain step 0
 ]
 MONOTONE = AFFINE + [
     lambda k: [2, 10, 11, 100, 1000][k - 1], lambda k: [-3, 0.1, 1.0, 7.5, 1e1][k - 1],
@@ -366,12 +366,17 @@ def main(chk):
     config.update('flax_use_orbax_checkpointing', orbax_default)
     faults.uninstall()
   chk.cov['behaviours_replayed'] = n_beh
+  # code -> spec: recorded executions (repository tests, randomized driver) validated by TLC against Checkpoint.tla
+  import ckpt_trace_check
+  ckpt_trace_check.run(chk)
   chk.assumptions.append('Orbax Checkpointer.save is abstracted to the directory states it can leave (nothing / temp dir / committed); '
                          'crash points inside Orbax are injected at its os.rename / os.makedirs / shutil.rmtree calls')
   chk.finish(
       rule=('TLC -simulate generates save histories (<= 5 saves, <= 2 crashes, steps from 5 values, keep 1..3, keep_every 0/2/3, overwrite) '
             'with a crash point at any file-system action; each distinct history is replayed on real save_checkpoint with crash-and-freeze '
-            'injection and the directory + readers are compared after every event. Non-trivial = more than one save or a non-ok outcome.'),
+            'injection and the directory + readers are compared after every event. Non-trivial = more than one save or a non-ok outcome. '
+            'Trace validation: every flax.io call of save_checkpoint recorded from tests/checkpoints_test.py and from randomized save histories '
+            '(3-9 saves, steps incl. 0 / negatives / floats, keep <= 5, both back-ends) is matched by TLC against the actions of Checkpoint.tla.'),
       exhaustive=False)
 
 
